@@ -36,3 +36,246 @@ fn c20_gate_monotone() {
 	kani::cover!(v.gte(ma, mi) && key(v) < key(w), "monotone step");
 }
 
+
+fn vkey3(v: (u8, u8, u8)) -> u32 {
+	(v.0 as u32) << 16 | (v.1 as u32) << 8 | v.2 as u32
+}
+
+// @verif property=C20 tier=quick mem=8 timeout=600
+// @encodes peppi::io::peppi::assert_current_version (format-version gate of the .slpp reader), derived Ord of peppi::Version
+// @symbolic 24 version triple
+// @bound none - complete over all 2^24 format versions
+// @stub alloc::fmt::format = returns an empty String
+#[kani::proof]
+#[kani::stub(alloc::fmt::format, crate::util::format_stub)]
+fn c20_peppi_version_gate() {
+	let v = PVersion(kani::any(), kani::any(), kani::any());
+	let r = peppi::io::peppi::verif::assert_current_version(v);
+	// rejected exactly when below the minimum supported format version 2.0.0
+	assert!(r.is_err() == (vkey3((v.0, v.1, v.2)) < vkey3((2, 0, 0))));
+	kani::cover!(r.is_err(), "too old");
+	kani::cover!(r.is_ok(), "accepted");
+	core::mem::forget(r);
+}
+
+/// Reference scanner for "exactly three dot-separated integers in 0..=255" (what `u8::from_str`
+/// accepts for one component: an optional '+', then one or more ASCII digits, value <= 255).
+fn ref_component(s: &[u8]) -> Option<u8> {
+	let mut i = 0;
+	if i < s.len() && s[i] == b'+' {
+		i += 1;
+	}
+	if i >= s.len() {
+		return None;
+	}
+	let mut val: u32 = 0;
+	while i < s.len() {
+		let c = s[i];
+		if c < b'0' || c > b'9' {
+			return None;
+		}
+		val = val * 10 + (c - b'0') as u32;
+		if val > 255 {
+			return None;
+		}
+		i += 1;
+	}
+	Some(val as u8)
+}
+
+fn ref_parse(s: &[u8]) -> Option<(u8, u8, u8)> {
+	// positions of the dots
+	let mut dots = [0usize; 2];
+	let mut nd = 0;
+	let mut i = 0;
+	while i < s.len() {
+		if s[i] == b'.' {
+			if nd == 2 {
+				return None;
+			}
+			dots[nd] = i;
+			nd += 1;
+		}
+		i += 1;
+	}
+	if nd != 2 {
+		return None;
+	}
+	let a = ref_component(&s[..dots[0]])?;
+	let b = ref_component(&s[dots[0] + 1..dots[1]])?;
+	let c = ref_component(&s[dots[1] + 1..])?;
+	Some((a, b, c))
+}
+
+const ALPHABET: [u8; 13] = [b'.', b'+', b'-', b'0', b'1', b'2', b'5', b'6', b'9', b'a', b' ', b'3', b'7'];
+
+fn parse_rejects<const L: usize, const PEPPI: bool>() -> bool {
+	let mut bytes = [0u8; L];
+	let mut i = 0;
+	while i < L {
+		let k: usize = kani::any();
+		kani::assume(k < ALPHABET.len());
+		bytes[i] = ALPHABET[k];
+		i += 1;
+	}
+	let s = unsafe { core::str::from_utf8_unchecked(&bytes) };
+	let want = ref_parse(&bytes);
+	if PEPPI {
+		let r = PVersion::from_str(s);
+		match (&r, want) {
+			(Ok(v), Some(w)) => assert!((v.0, v.1, v.2) == w),
+			(Err(_), None) => {}
+			_ => assert!(false),
+		}
+		let ok = r.is_ok();
+		core::mem::forget(r);
+		ok
+	} else {
+		let r = Version::from_str(s);
+		match (&r, want) {
+			(Ok(v), Some(w)) => assert!((v.0, v.1, v.2) == w),
+			(Err(_), None) => {}
+			_ => assert!(false),
+		}
+		let ok = r.is_ok();
+		core::mem::forget(r);
+		ok
+	}
+}
+
+// @verif property=C20 tier=quick mem=10 timeout=1500
+// @encodes impl FromStr for peppi::io::slippi::Version, peppi::io::parse_u8 (with the real str::split and u8::from_str)
+// @symbolic 8 every string of length 2 over a 13-symbol alphabet (. + - digits letter space)
+// @bound strings of exactly 2 bytes (none can be a version: rejection side only)
+// @stub alloc::fmt::format = returns an empty String (error message text)
+#[kani::proof]
+#[kani::unwind(8)]
+#[kani::stub(alloc::fmt::format, crate::util::format_stub)]
+fn c20_parse_rejects_slippi_l2() {
+	let ok = parse_rejects::<2, false>();
+	kani::cover!(!ok, "rejected");
+}
+
+// @verif property=C20 tier=quick mem=10 timeout=1500
+// @encodes impl FromStr for peppi::io::slippi::Version, peppi::io::parse_u8
+// @symbolic 12 every string of length 3 over a 13-symbol alphabet
+// @bound strings of exactly 3 bytes (rejection side only)
+// @stub alloc::fmt::format = returns an empty String (error message text)
+#[kani::proof]
+#[kani::unwind(8)]
+#[kani::stub(alloc::fmt::format, crate::util::format_stub)]
+fn c20_parse_rejects_slippi_l3() {
+	let ok = parse_rejects::<3, false>();
+	kani::cover!(!ok, "rejected");
+}
+
+// @verif property=C20 tier=thorough mem=12 timeout=2400
+// @encodes impl FromStr for peppi::io::slippi::Version, peppi::io::parse_u8 (with the real str::split and u8::from_str)
+// @symbolic 15 every string of length 4 over a 13-symbol alphabet (. + - digits letter space)
+// @bound strings of exactly 4 bytes (none can be a version: rejection side only)
+// @stub alloc::fmt::format = returns an empty String (error message text)
+#[kani::proof]
+#[kani::unwind(8)]
+#[kani::stub(alloc::fmt::format, crate::util::format_stub)]
+fn c20_parse_rejects_slippi_l4() {
+	let ok = parse_rejects::<4, false>();
+	kani::cover!(!ok, "rejected");
+}
+
+// @verif property=C20 tier=thorough mem=16 timeout=3000
+// @encodes impl FromStr for peppi::io::slippi::Version, peppi::io::parse_u8
+// @symbolic 19 every string of length 5 over a 13-symbol alphabet
+// @bound strings of exactly 5 bytes: acceptance (e.g. "1.2.3", "+1.2.3" is 6 so not) and rejection vs. the reference scanner
+// @stub alloc::fmt::format = returns an empty String
+#[kani::proof]
+#[kani::unwind(8)]
+#[kani::stub(alloc::fmt::format, crate::util::format_stub)]
+fn c20_parse_rejects_slippi_l5() {
+	let ok = parse_rejects::<5, false>();
+	kani::cover!(ok, "accepted");
+	kani::cover!(!ok, "rejected");
+}
+
+// @verif property=C20 tier=thorough mem=16 timeout=3000
+// @encodes impl FromStr for peppi::io::peppi::Version, peppi::io::parse_u8
+// @symbolic 19 every string of length 5 over a 13-symbol alphabet
+// @bound strings of exactly 5 bytes
+// @stub alloc::fmt::format = returns an empty String
+#[kani::proof]
+#[kani::unwind(8)]
+#[kani::stub(alloc::fmt::format, crate::util::format_stub)]
+fn c20_parse_rejects_peppi_l5() {
+	let ok = parse_rejects::<5, true>();
+	kani::cover!(ok, "accepted");
+	kani::cover!(!ok, "rejected");
+}
+
+// @verif property=C20 tier=quick mem=10 timeout=1500
+// @encodes peppi::io::parse_u8 (u8::from_str) on every 1..=3-character component
+// @symbolic 26 component length and three characters from the alphabet
+// @bound components of 1..=3 bytes: all three-digit values incl. 256..999 (overflow), leading '+', '-', junk
+// @stub alloc::fmt::format = returns an empty String
+#[kani::proof]
+#[kani::unwind(8)]
+#[kani::stub(alloc::fmt::format, crate::util::format_stub)]
+fn c20_parse_u8_total() {
+	let mut bytes = [0u8; 3];
+	let mut i = 0;
+	while i < 3 {
+		let k: usize = kani::any();
+		kani::assume(k < ALPHABET.len());
+		bytes[i] = ALPHABET[k];
+		i += 1;
+	}
+	let n: usize = kani::any();
+	kani::assume(n <= 3);
+	let s = unsafe { core::str::from_utf8_unchecked(&bytes[..n]) };
+	let r = peppi::io::verif::parse_u8(s);
+	match (&r, ref_component(&bytes[..n])) {
+		(Ok(v), Some(w)) => assert!(*v == w),
+		(Err(_), None) => {}
+		_ => assert!(false),
+	}
+	kani::cover!(r.is_ok() && n == 3, "three-digit value");
+	kani::cover!(r.is_err() && n == 3 && bytes[0] == b'2' && bytes[1] == b'5' && bytes[2] == b'6', "256 rejected");
+	kani::cover!(n == 0, "empty component");
+	core::mem::forget(r);
+}
+
+// @verif property=C20 tier=thorough mem=24 timeout=3600
+// @encodes impl Display for peppi::io::slippi::Version -> to_string -> impl FromStr (real core::fmt, not stubbed)
+// @symbolic 24 version triple
+// @bound none in the version (all 2^24 triples)
+#[kani::proof]
+#[kani::unwind(8)]
+fn c20_display_parse_slippi() {
+	let v = Version(kani::any(), kani::any(), kani::any());
+	let s = v.to_string();
+	let r = Version::from_str(&s);
+	match &r {
+		Ok(w) => assert!(*w == v),
+		Err(_) => assert!(false),
+	}
+	kani::cover!(v.0 >= 100 && v.1 < 10, "mixed widths");
+	core::mem::forget(r);
+	core::mem::forget(s);
+}
+
+// @verif property=C20 tier=thorough mem=24 timeout=3600
+// @encodes impl Display for peppi::io::peppi::Version -> to_string -> impl FromStr (real core::fmt)
+// @symbolic 24 version triple
+// @bound none in the version
+#[kani::proof]
+#[kani::unwind(8)]
+fn c20_display_parse_peppi() {
+	let v = PVersion(kani::any(), kani::any(), kani::any());
+	let s = v.to_string();
+	let r = PVersion::from_str(&s);
+	match &r {
+		Ok(w) => assert!(*w == v),
+		Err(_) => assert!(false),
+	}
+	kani::cover!(v.2 >= 100, "three-digit patch");
+	core::mem::forget(r);
+	core::mem::forget(s);
+}
